@@ -9,7 +9,7 @@ from .. import poly, quat, solve, sym
 from ..sarr import SArr, patched, sarr
 from ..sym import R, real
 from . import kernel
-from .common import all_eq, eq, np_installed, pydrex_modules, sample
+from .common import all_eq, eq, np_installed, pydrex_modules, sample, only_path
 
 TIMEOUT_MS = {"quick": 60000, "thorough": 300000}
 
@@ -130,7 +130,7 @@ def t_spin_contract(sess):
         paths, info = sym.explore(fn)
     if len(paths) != 1 or paths[0].exc is not None:
         raise sym.HarnessError(f"unexpected paths {paths}")
-    p = paths[0]
+    p = only_path(sess, paths)
     q, A, dA = p.value
     rules = poly.Rules().unit_quat(q)
     Z = sarr(np.zeros((3, 3)))
@@ -213,7 +213,7 @@ def t_aggregate(sess, regime, n_grains):
         paths, info = sym.explore(fn)
     if len(paths) != 1 or paths[0].exc is not None:
         raise sym.HarnessError(f"unexpected paths in derivatives: {paths}")
-    p = paths[0]
+    p = only_path(sess, paths)
     v = p.value
     f, M, phi, a = v["f"], v["M"], v["phi"], v["a"]
     dA, df = v["o1"]
@@ -251,3 +251,8 @@ def t_aggregate(sess, regime, n_grains):
     if len(v["calls"]) != 4 * n_grains:
         raise sym.HarnessError("kernel call count")
     sample(sess, obligation="zero net volume change", regime=regime, sum_df=str(sum(df, R(0)))[:300])
+
+
+def default_cex(name):
+    """Generic public-API replay for verdicts that carry no more specific counterexample."""
+    return {"replay": "vf.props.replays:c03_rates", "case": {}, "cls": {"kind": "rates do not conserve the texture manifold"}}
